@@ -213,3 +213,18 @@ def may_succeed(oc):
         if t and a.startswith('EQ(%s,CKR_' % ret) and not a.endswith(',CKR_OK)'):
             return False
     return True
+
+
+def macro_values(prog):
+    """name -> {(value, file)} of every macro-spelled integer constant (all occurrences, per defining use site)."""
+    if not hasattr(prog, '_macro_values'):
+        m = {}
+        for f in prog.functions.values():
+            for n in walk(f['body']):
+                if n.get('k') == 'Lit' and n.get('m'):
+                    m.setdefault(n['m'], set()).add((n['v'], f['file']))
+        for e in prog.enums.values():
+            for en in e['enumerators']:
+                m.setdefault(en['name'], set()).add((en['v'], e['file']))
+        prog._macro_values = m
+    return prog._macro_values
